@@ -2,6 +2,7 @@
 // The process that drives a history never executes an operation itself (it is the zygote): the history runs in one
 // forked child, every single operation additionally runs alone in its own forked child, results are compared.
 #include "harness.h"
+#include "ref.h"
 #include "cry.h"
 #include "getval.h"
 #include <cstring>
@@ -537,6 +538,54 @@ Verdict run_C18_cli(const Scn &s) {
   if (memcmp(&outs[0][48], &outs[1][48], 20 * T) == 0)
     return V("iv-independent-of-seed@cli", "two command-line encryptions at different times (" + std::to_string(s.geti("t1")) + ", " + std::to_string(s.geti("t2")) + "; seeds " +
                                                 (nonul[0] && nonul[1] ? "both without a zero byte in their 256 bytes" : "as drawn by the parser") + ") produced the same IV fields");
+  return v;
+}
+
+// ---------------------------------------------------------------- C02 on the command-line path
+// `wencry -e -i F -o G -k <base64 string> --cmode c --hmode h` must write exactly the documented file for the key that the
+// string denotes (RFC 4648), the modes given, four streams, and the seed the parser drew: 256 bytes of rand() after
+// srand(time), used as a C string.  The clock is simulated, so the seed is known whenever those bytes contain a zero.
+Verdict run_C02_cli(const Scn &s) {
+  Verdict v;
+  long simtime = s.geti("t1");
+  srand((unsigned)simtime);
+  Bytes seedstr;
+  bool terminated = false;
+  for (int i = 0; i < 256; i++) { uint8_t b = (uint8_t)rand(); if (b == 0) { terminated = true; break; } seedstr.push_back(b); }
+  if (!terminated) { v.skipped = true; v.skip_reason = "cli-seed-not-terminated"; return v; }   // the seed then depends on what follows the buffer
+  char tmpl[512];
+  snprintf(tmpl, sizeof tmpl, "%s/c02-XXXXXX", g_outdir.empty() ? "/tmp" : g_outdir.c_str());
+  if (!mkdtemp(tmpl)) { snprintf(tmpl, sizeof tmpl, "/tmp/c02-XXXXXX"); if (!mkdtemp(tmpl)) { v.skipped = true; v.skip_reason = "no-scratch-dir"; return v; } }
+  std::string dir = tmpl;
+  Bytes key = s.getb("key");
+  std::string k64 = b64(key.data(), 16);
+  long len = s.geti("len"), pseed = s.geti("pseed"), cm = s.geti("cm"), hm = s.geti("hm");
+  Rec r;
+  r.kind = "argv";
+  r.data = key;
+  push_args(r, {"wencry", "-e", "-i", "in0", "-o", "out0", "-k", k64, "--cmode", std::to_string(cm), "--hmode", std::to_string(hm), "-n"});
+  r.a = {simtime, len, pseed, cm, hm, 0, 1, simsched::ST_UNIFORM, 0, s.geti("ss0", 1), 0, 0};
+  int st;
+  std::vector<Outcome> o = in_child(dir + "/e", [&]() { Outcome x = exec_op(r, Bytes()); send_outcome(x); }, st);
+  rm_rf(dir);
+  g_stats.add("history.fresh_forks", 1);
+  v.case_hash = fnv1a(fnv1a_u64(fnv1a_u64(FNV_INIT, (uint64_t)simtime), (uint64_t)(len * 64 + cm * 8 + hm)), key.data(), 16);
+  if (!(o.size() == 1 && o[0].status == 1 && WIFEXITED(st) && WEXITSTATUS(st) == 0)) { v.skipped = true; v.skip_reason = "cli-encrypt-did-not-terminate-normally"; return v; }
+  v.nontrivial = true;
+  g_stats.add("probe.cli_files_compared_with_reference", 1);
+  auto V = [&](const std::string &c, const std::string &d) { Verdict x; x.violation = true; x.cls = c; x.detail = d; x.case_hash = v.case_hash; x.nontrivial = true; return x; };
+  if (!o[0].ret || o[0].out.empty() || o[0].out.back() != 1) return V("enc-returned-false@cli", "`wencry -e -k " + k64 + "` did not succeed or wrote no file");
+  Bytes E(o[0].out.begin(), o[0].out.end() - 1);
+  v.trace_hash = fnv1a(FNV_INIT, E.data(), E.size());
+  Bytes P = make_plain(len, (uint64_t)pseed, 0, build_chunk_bytes());
+  Bytes R = ref_encrypt_file(P, key.data(), (int)cm, (int)hm, seedstr, 4, build_chunk_bytes());
+  if (E != R) {
+    size_t k = 0;
+    while (k < E.size() && k < R.size() && E[k] == R[k]) k++;
+    Verdict x = V("format@cli", "file written by `wencry -e -k " + k64 + " --cmode " + std::to_string(cm) + " --hmode " + std::to_string(hm) + "` (" + std::to_string(E.size()) + " bytes) differs from the documented format for that key, those modes, 4 streams and the seed drawn at time " + std::to_string(simtime) + " (" + std::to_string(R.size()) + " bytes), first at offset " + std::to_string(k));
+    x.trace_hash = v.trace_hash;
+    return x;
+  }
   return v;
 }
 
